@@ -46,6 +46,9 @@ def sview (simp : Str → Str) (m : Msg) : SView :=
 structure Cfg where
   /-- `msg.toString(verbose, templateFormat, templateLocation)` with empty guideline/classification -/
   key : Msg → Str
+  /-- the text `Executor::hasToLog` uses as the key of its duplicate filter (its own `msg.toString(…)` call: the arguments
+      are extracted from cli/executor.cpp on every run, see `KeyArgs` and `Gen/C15Keys.lean`) -/
+  keyGate : Msg → Str
   /-- the same after `StdLogger::reportErr` has set guideline and classification (identical without --report-type) -/
   key2 : Msg → Str
   /-- some suppression that is not `isLocal()` matches -/
@@ -138,7 +141,7 @@ def Raw.globalOnly (cfg : Cfg) (r : Raw) : Bool :=
 
 /-- the output template renders no message of the run to the empty string -/
 def keyOK (cfg : Cfg) (rs : List Raw) : Bool :=
-  rs.all fun r => !(cfg.key r.msg).isEmpty && !(cfg.key r.fwd).isEmpty
+  rs.all fun r => !(cfg.key r.msg).isEmpty && !(cfg.key r.fwd).isEmpty && !(cfg.keyGate r.msg).isEmpty && !(cfg.keyGate r.fwd).isEmpty
 
 /-- without --safety, or no critical error id is matched by a non-local suppression (excluded: finding F11c) -/
 def safetyOK (cfg : Cfg) (rs : List Raw) : Bool :=
@@ -156,11 +159,65 @@ def gate (cfg : Cfg) (el : List Str) (m : Msg) : Bool × List Str :=
   if m.severity = .internal then (true, el)
   else if cfg.supG (sview cfg.simp m) then (false, el)
   else
-    let k := cfg.key m
+    let k := cfg.keyGate m
     if k.isEmpty then (false, el)
     else if cfg.emitDuplicates then (true, el)
     else if k ∈ el then (false, el)
     else (true, k :: el)
+
+/-! ### the three `toString` calls that produce duplicate-filter keys
+
+`ErrorMessage::toString(verbose, templateFormat, templateLocation)` itself is a parameter (`RenderCfg.render`, owned by C26).
+WHICH arguments each of the three filters passes is extracted from the source on every run (`vlib/props/c15.py translate`
+→ `Gen/C15Keys.lean`); `Cfg.ofRender` builds the executor configuration from them. -/
+
+inductive BoolArg
+  | settingsVerbose | constTrue | constFalse
+  deriving DecidableEq, Repr, Inhabited
+
+inductive StrArg
+  | settingsTemplateFormat | settingsTemplateLocation | emptyString
+  deriving DecidableEq, Repr, Inhabited
+
+/-- the argument list of one `toString` call -/
+structure KeyArgs where
+  verbose : BoolArg
+  format : StrArg
+  location : StrArg
+  deriving DecidableEq, Repr, Inhabited
+
+structure RenderCfg where
+  /-- `ErrorMessage::toString` (with empty guideline / classification) -/
+  render : Bool → Str → Str → Msg → Str
+  verbose : Bool
+  templateFormat : Str
+  templateLocation : Str
+
+def RenderCfg.boolArg (r : RenderCfg) : BoolArg → Bool
+  | .settingsVerbose => r.verbose
+  | .constTrue => true
+  | .constFalse => false
+
+def RenderCfg.strArg (r : RenderCfg) : StrArg → Str
+  | .settingsTemplateFormat => r.templateFormat
+  | .settingsTemplateLocation => r.templateLocation
+  | .emptyString => []
+
+/-- the key a filter computes with the given call -/
+def RenderCfg.keyOf (r : RenderCfg) (a : KeyArgs) (m : Msg) : Str :=
+  r.render (r.boolArg a.verbose) (r.strArg a.format) (r.strArg a.location) m
+
+/-- the executor configuration whose three keys are the given `toString` calls (no --report-type) -/
+def Cfg.withKeys (base : Cfg) (r : RenderCfg) (logger gate sink : KeyArgs) : Cfg :=
+  { base with key := r.keyOf logger, keyGate := r.keyOf gate, key2 := r.keyOf sink }
+
+/-- `ErrorMessage::toString` for the templates the in-process tie uses: templateFormat `{id}`, templateLocation empty or
+    `{line}:{info}` (ids and infos without '{'): the id, and — when a location template is given and the call stack has at
+    least two frames — one line `<line>:<info, or the short message when the info is empty>` per frame -/
+def renderIdLoc (_verbose : Bool) (_format location : Str) (m : Msg) : Str :=
+  m.id ++ (if location.isEmpty || m.stack.length < 2 then []
+           else m.stack.flatMap fun l => '\n' :: renderInt l.line ++ ':' :: (if l.info.isEmpty then m.short else l.info))
+
 
 /-- `StdLogger`: keys shown, findings written (newest first), a critical error id was seen -/
 structure Sink where
